@@ -3,7 +3,7 @@ from .. import config, corpus, gen
 from ..core import Ctx, finish
 from ..rules_vector import Checker
 from ..rules_own import discover_owners, ownership, ctor_alloc_relation
-from ..rules_elem import rule_E, rule_EQ, rule_moved_from
+from ..rules_elem import rule_E, rule_EQ, rule_moved_from, rule_self
 from ._common import ASSUME, TRUSTED
 
 
@@ -15,6 +15,7 @@ def rule(tu, rec):
     rule_E(ck, owners)
     rule_EQ(ck)
     rule_moved_from(ck)
+    rule_self(ck)
 
 
 def configs(tier, seed):
@@ -42,7 +43,9 @@ def run(tier, seed, only=None):
         "E1: every byte the operation writes for the element lies inside the block the element owns afterwards (allocation "
         "size >= bytes stored); E2: the stored byte image is the source's used range [data_begin, data_begin+size_in_bytes); "
         "E3: afterwards every span of the element has the source's length; E4: non-trivial fields are copy-constructed from "
-        "lvalue / const sources and move-constructed from rvalue mutable references.  Not decided: value-level equality of the "
+        "lvalue / const sources and move-constructed from rvalue mutable references; E5: with a moved-from target (no block, size 0) "
+        "copy / move assignment, swap and destruction access nothing through a pointer stored in the target; E6: self copy / move "
+        "assignment performs no lifecycle, allocator or bulk-copy event and leaves the bookkeeping unchanged.  Not decided: value-level equality of the "
         "copied objects; agreement of the field offsets of source and copy (depends on the congruence of two unrelated base "
         "addresses); preservation of 'content fits the block' through element-to-element operations is assumed.",
         ASSUME, TRUSTED + ["hook: read-only element observers under TRADIAS_CONTIGUOUS_VERIF"],
